@@ -47,6 +47,15 @@ Inductive closepath :=
                                  session whose handler exited at shutdown without closing the peer *)
 | CPOther.
 
+(* the session lock held where the details map of a session is used *)
+Inductive lockstate :=
+| LSLocked          (* the lock of the session the details belong to *)
+| LSAfterRemoval    (* the session was already deleted from the realm's client table: the only
+                       concurrent writer (wamp.session.modify_details) can no longer find it *)
+| LSFresh           (* the session was created in this function and is not shared yet *)
+| LSWrongLock       (* some lock is held, but not the owner's *)
+| LSUnlocked.
+
 Inductive nonnil := NNMake | NNLit | NNNormalize | NNChecked | NNSessionDetails | NNComponent | NNUnknown.
 
 Inductive skind :=
@@ -66,7 +75,8 @@ Inductive skind :=
 | SReflect (meth : string) (guarded : bool)
 | SDiv (guarded : bool)
 | SMakeLen (guarded : bool)
-| SCallPanic (f : string).
+| SCallPanic (f : string)
+| SDetailsUse (l : lockstate).
 
 (* s_file / s_func index the generated tables gen_files / gen_funcs (kept out
    of the record so that the inventory stays small); s_decoder marks package
@@ -87,7 +97,7 @@ Definition is_client (o : origin) : bool :=
   match o with OInternal => false | _ => true end.
 
 Definition always_relevant (k : skind) : bool :=
-  match k with SPeerClose _ | SPanic _ | SMsgSend _ => true | _ => false end.
+  match k with SPeerClose _ | SPanic _ | SMsgSend _ | SDetailsUse _ => true | _ => false end.
 
 Definition site_relevant (s : site) : bool :=
   negb (s_decoder s) &&
@@ -181,6 +191,7 @@ Definition exec (k : skind) (e : env) : res :=
   | SDiv g => if g then ROk else RPanic
   | SMakeLen g => if g then ROk else RPanic
   | SCallPanic _ => RPanic
+  | SDetailsUse _ => ROk                                   (* not value-level: see Safety/Locks.v *)
   end.
 
 (* ---------------------------------------------------------------- *)
@@ -230,6 +241,8 @@ Definition kind_safe (c : gcfg) (k : skind) : bool :=
   | SDiv g => g
   | SMakeLen g => g
   | SCallPanic _ => false
+  | SDetailsUse LSLocked | SDetailsUse LSAfterRemoval | SDetailsUse LSFresh => true
+  | SDetailsUse _ => false
   end.
 
 Definition site_safe (c : gcfg) (s : site) : bool := kind_safe c (s_kind s).
